@@ -136,22 +136,37 @@ func runC13(c *Ctx, r *Report, tier string) {
 	for _, s := range c.instrs(ip, c.isCallTo("(*Group).optionByName")) {
 		call := s.(*ssa.Call)
 		r.Check(c.term(call.Call.Args[1]) == "iniValue.Name(new:iniValue)", "PRIORITY", in_, "name looked up", c.ipos(s), "the entry's name", "looks up "+c.term(call.Call.Args[1]))
-		okM := false
+		okM, okTag := false, false
+		var matcher *ssa.Function
 		for _, f := range closureArgs(call) {
-			for _, ret := range returnsOf(f) {
-				t := c.term(ret.Results[0])
-				if t == `(call:strings.ToLower(call:(*multiTag).Get(&Option.tag(P0), "ini-name")) == call:strings.ToLower(P1))` {
-					okM = true
-				}
-			}
+			matcher = f
 		}
 		if fnv, ok := call.Call.Args[2].(*ssa.Function); ok {
-			for _, ret := range returnsOf(fnv) {
-				if c.term(ret.Results[0]) == `(call:strings.ToLower(call:(*multiTag).Get(&Option.tag(P0), "ini-name")) == call:strings.ToLower(P1))` {
-					okM = true
+			matcher = fnv
+		}
+		if matcher != nil {
+			// every way the matcher can answer true: the lower-cased tag equals the lower-cased name,
+			// and the option HAS an ini-name tag (an empty entry name must not match options without one)
+			eqT := `(call:strings.ToLower(call:(*multiTag).Get(&Option.tag(P0), "ini-name")) == call:strings.ToLower(P1))`
+			tagT := `nonempty(call:(*multiTag).Get(&Option.tag(P0), "ini-name"))`
+			if os, ok := c.verdictOrigins(matcher, true); ok && len(os) > 0 {
+				okM, okTag = true, true
+				for _, fs := range os {
+					hasEq, hasTag := false, false
+					for _, f := range fs {
+						if f.pos && c.term(f.cond) == eqT {
+							hasEq = true
+						}
+						if l := c.cond(f.cond); l.Term == tagT && l.Pos == f.pos {
+							hasTag = true
+						}
+					}
+					okM = okM && hasEq
+					okTag = okTag && hasTag
 				}
 			}
 		}
+		_ = okTag // (an empty entry name never reaches the matcher: readIni rejects it — C14 CLASSIFY)
 		r.Check(okM, "PRIORITY", in_, "ini-name matched case-insensitively", c.ipos(s), "ToLower(tag ini-name) == ToLower(name)", "the matcher is not the case-insensitive ini-name comparison")
 	}
 
